@@ -9,6 +9,12 @@ D2 no accumulating per-object / module state feeds the stream (a module-level li
    constant), and no object identity / process state / clock reaches a stable field (taint from id, hash,
    object.__repr__, random, time, uuid4 to what the trace-path functions return, persist or write; the volatile
    producers - timing block, run id, driver timestamp - are found by role),
+D2 (round 3) an orchestrator attribute filled with a run-derived value on the execute() path is rebound in the same
+   call before every read (CFG dominance, interprocedural through self-calls, extract-method aware); containers that
+   exist once per process on the trace path (class body, module level, mutable default) are read-only, also through
+   a local alias,
+D1 (round 3) json sinks of the trace path are not stricter than the sanitiser's probe unless the extra failure is
+   contained; driver callbacks raise nothing of their own,
 D3 driver calls are gated on the trace being present.
 Run state of execute and live parameters of the helpers are found by role / declared type, not by spelling.
 """
@@ -227,6 +233,9 @@ def run(repo: Repo, R: Report) -> None:
     self_reads = [a for a in self_reads if not any(isinstance(c.func, ast.Attribute) and dotted_name(c.func) == a for c in calls_in(mk))]
     R.check(not self_reads, r_hist, ORCH, O + "_make_ser_record", "SER construction reads no instance state", f"SER fields are computed from persistent instance state {self_reads}", mk.lineno)
     _no_identity_in_stream(repo, R, ex, helper_fns, drivers)
+    _no_run_carried_instance_state(repo, R)
+    _no_shared_mutable_tables(repo, R)
+    _sinks_not_stricter_than_sanitiser(repo, R, drivers)
     # the caller-owned canonical spec is not mutated (pipeline_id would depend on history)
     from . import c04
 
@@ -760,3 +769,439 @@ def _live_params(f: ast.AST) -> Set[str]:
 
 def _opaque_params_one(names: Set[str]) -> bool:
     return not names or bool(names & {"Any", "object"}) and not names <= SCALAR_ANN
+
+
+# ---------------------------------------------------------------------------------------------------------
+# D2: instance state of the orchestrator that survives a run (memo / last-value cell on `self`)
+# ---------------------------------------------------------------------------------------------------------
+MUTATORS = GROWERS | {"pop", "popitem", "clear", "remove", "discard", "sort", "reverse", "popleft"}
+
+
+def _self_attr(n: ast.AST) -> Optional[str]:
+    if isinstance(n, ast.Attribute) and isinstance(n.value, ast.Name) and n.value.id == "self":
+        return n.attr
+    return None
+
+
+def _const_reset(v: Optional[ast.AST]) -> bool:
+    """A value that carries nothing of any run: a constant, an empty container."""
+    if v is None or isinstance(v, ast.Constant):
+        return True
+    if isinstance(v, (ast.Dict, ast.List, ast.Set, ast.Tuple)):
+        return not (v.keys if isinstance(v, ast.Dict) else v.elts)
+    if isinstance(v, ast.Call) and dotted_name(v.func) in ("dict", "list", "set", "tuple", "frozenset", "OrderedDict", "collections.OrderedDict") and not v.args and not v.keywords:
+        return True
+    return False
+
+
+def _string_arg(c: ast.Call, i: int) -> Optional[str]:
+    return c.args[i].value if len(c.args) > i and isinstance(c.args[i], ast.Constant) and isinstance(c.args[i].value, str) else None
+
+
+def _self_accesses(f: ast.AST):
+    """(kind, attr, node, value) for every access to an attribute of `self` in *f* (nested lambdas / defs included).
+    kind: 'rebind' (self.X = v, setattr, del self.X; value None for del), 'mutate' (store through / mutator on
+    self.X), 'read' (the value of self.X is used)."""
+    for n in ast.walk(f):
+        if isinstance(n, ast.Call) and isinstance(n.func, ast.Name) and n.args and isinstance(n.args[0], ast.Name) and n.args[0].id == "self":
+            nm = _string_arg(n, 1)
+            if n.func.id in ("getattr", "hasattr") and nm is not None:
+                yield "read", nm, n, None
+            elif n.func.id == "setattr" and nm is not None and len(n.args) == 3:
+                yield "rebind", nm, n, n.args[2]
+            elif n.func.id == "delattr" and nm is not None:
+                yield "rebind", nm, n, None
+            elif n.func.id in ("getattr", "hasattr", "setattr", "delattr", "vars"):
+                yield "read", "__dict__", n, None
+            continue
+        a = _self_attr(n)
+        if a is None:
+            continue
+        par = getattr(n, "_parent", None)
+        if isinstance(n.ctx, ast.Store):
+            st = stmt_of(n)
+            if isinstance(st, ast.AugAssign) and st.target is n:
+                yield "read", a, n, None
+                yield "rebind", a, n, st
+            else:
+                val = getattr(st, "value", None) if isinstance(st, (ast.Assign, ast.AnnAssign)) else st
+                # tuple targets: the value is whatever the right-hand side yields
+                yield "rebind", a, n, val
+            continue
+        if isinstance(n.ctx, ast.Del):
+            yield "rebind", a, n, None
+            continue
+        # Load: a designation of the cell being written, or a read
+        cur, p = n, par
+        through_store = False
+        while isinstance(p, (ast.Subscript, ast.Attribute)) and p.value is cur:
+            if isinstance(p.ctx, (ast.Store, ast.Del)):
+                through_store = True
+                break
+            cur, p = p, getattr(p, "_parent", None)
+        if through_store:
+            yield "mutate", a, n, None
+            if isinstance(getattr(p, "_parent", None), ast.AugAssign):
+                yield "read", a, n, None
+            continue
+        if isinstance(par, ast.Attribute) and par.value is n and par.attr in MUTATORS and isinstance(getattr(par, "_parent", None), ast.Call) and par._parent.func is par:
+            yield "mutate", a, n, None
+            if not isinstance(getattr(par._parent, "_parent", None), ast.Expr):
+                yield "read", a, n, None
+            continue
+        yield "read", a, n, None
+
+
+def _in_nested_callable(n: ast.AST, f: ast.AST) -> bool:
+    """Is *n* inside a lambda / def nested in *f* (so it does not run where it is written)?"""
+    for a in ancestors(n):
+        if a is f:
+            return False
+        if isinstance(a, FuncNode + (ast.Lambda,)):
+            return True
+    return False
+
+
+def _orchestrator_closure(repo: Repo):
+    """Methods of the orchestrator classes (base + subclasses) reachable from execute through `self.m(...)`,
+    `super().m(...)` and property reads."""
+    omod = repo.module(ORCH)
+    base = repo.cls(ORCH, "SemantivaOrchestrator")
+    classes = [(omod, base)] + [(m, c) for m, c in repo.subclasses(base) if c is not base]
+    methods: Dict[str, List[Tuple[str, str, ast.AST]]] = {}
+    for m, c in classes:
+        for st in c.body:
+            if isinstance(st, FuncNode):
+                methods.setdefault(st.name, []).append((m.rel, f"{c.name}.{st.name}", st))
+    if "execute" not in methods:
+        raise AnalysisError("SemantivaOrchestrator.execute vanished")
+    clo: Dict[int, Tuple[str, str, ast.AST]] = {}
+    todo = list(methods["execute"])
+    callers: Dict[str, List[Tuple[ast.AST, ast.AST]]] = {}
+    while todo:
+        rel, qn, f = todo.pop()
+        if id(f) in clo:
+            continue
+        clo[id(f)] = (rel, qn, f)
+        for n in ast.walk(f):
+            name = None
+            if isinstance(n, ast.Call) and isinstance(n.func, ast.Attribute):
+                recv = n.func.value
+                if (isinstance(recv, ast.Name) and recv.id == "self") or (isinstance(recv, ast.Call) and dotted_name(recv.func) == "super"):
+                    name = n.func.attr
+            elif _self_attr(n) in methods and isinstance(n.ctx, ast.Load) and not (isinstance(getattr(n, "_parent", None), ast.Call) and n._parent.func is n):
+                name = n.attr  # property read / bound method taken as a value
+            if name in methods:
+                callers.setdefault(name, []).append((f, n))
+                todo.extend(methods[name])
+    return clo, callers, set(methods)
+
+
+def _no_run_carried_instance_state(repo: Repo, R: Report) -> None:
+    r = R.rule("C10-D2-no-run-carried-instance-state", "an attribute of the orchestrator that the code reachable from execute() both fills with a run-derived value and reads is (re)bound in the same execute() call on every path before the read: nothing execute() computes (records, summaries, results) is taken from what the same orchestrator object ran before", 2)
+    clo, callers, method_names = _orchestrator_closure(repo)
+    acc: Dict[str, Dict[str, List[Tuple[ast.AST, ast.AST, Optional[ast.AST]]]]] = {}
+    for rel, qn, f in clo.values():
+        for kind, attr, node, val in _self_accesses(f):
+            acc.setdefault(attr, {}).setdefault(kind, []).append((f, node, val))
+    cfgs: Dict[int, CFG] = {}
+
+    def cfg_of(f: ast.AST) -> CFG:
+        if id(f) not in cfgs:
+            cfgs[id(f)] = CFG(f)
+        return cfgs[id(f)]
+
+    def nodes_at(g: CFG, n: ast.AST) -> List[int]:
+        cur: Optional[ast.AST] = stmt_of(n)
+        while cur is not None:
+            ids = g.nodes_for(cur)
+            if ids:
+                return ids
+            cur = next((a for a in ancestors(cur) if isinstance(a, ast.stmt)), None)
+        return []
+
+    defs_by_name: Dict[str, List[ast.AST]] = {}
+    for _rel, _qn, f in clo.values():
+        defs_by_name.setdefault(getattr(f, "name", ""), []).append(f)
+    summary: Dict[Tuple[str, int], bool] = {}
+
+    def reset_nodes(attr: str, f: ast.AST, depth: int) -> Set[int]:
+        """CFG nodes of *f* after whose normal completion self.<attr> has been rebound in this call: a rebinding
+        statement whose value does not come from self.<attr>, or a statement calling a method of the orchestrator
+        that rebinds it on every path to its normal exit (extract-method)."""
+        g = cfg_of(f)
+        out: Set[int] = set()
+        for ff, node, val in acc[attr].get("rebind", []):
+            if ff is not f:
+                continue
+            if val is not None and any(k == "read" and a == attr for k, a, _n, _v in _self_accesses(val)):
+                continue
+            out.update(g.nodes_for(stmt_of(node)))
+        if depth < 3:
+            for c in calls_in(f):
+                if isinstance(c.func, ast.Attribute) and ((isinstance(c.func.value, ast.Name) and c.func.value.id == "self") or (isinstance(c.func.value, ast.Call) and dotted_name(c.func.value.func) == "super")):
+                    tg = defs_by_name.get(c.func.attr, [])
+                    if tg and not _in_nested_callable(c, f) and all(always_rebinds(attr, t, depth + 1) for t in tg):
+                        out.update(g.nodes_for(stmt_of(c)))
+        return out
+
+    def always_rebinds(attr: str, f: ast.AST, depth: int) -> bool:
+        key = (attr, id(f))
+        if key in summary:
+            return summary[key]
+        summary[key] = False  # recursion guard
+        g = cfg_of(f)
+        rs = reset_nodes(attr, f, depth)
+        if rs:
+            reach = g.reach([g.entry], blocked_edges={(w, "n") for w in rs})
+            exits = [n.id for n in g.nodes if n.kind == "ret_exit"]
+            summary[key] = bool(exits) and not any(e in reach for e in exits)
+        return summary[key]
+
+    def fresh(attr: str, f: ast.AST, at: ast.AST, depth: int = 0, seen: Tuple[int, ...] = ()) -> bool:
+        """Every path of this execute() call to *at* (a node of *f*) passes a rebinding of self.<attr> whose
+        value does not itself come from self.<attr>."""
+        g = cfg_of(f)
+        targets = nodes_at(g, at)
+        resets = reset_nodes(attr, f, 0)
+        if targets:
+            reach = g.reach([g.entry], blocked_edges={(w, "n") for w in resets})
+            own = [t for t in targets if t in reach]
+            if not own:
+                return True
+        if getattr(f, "name", "") == "execute" or depth > 4 or id(f) in seen:
+            return False
+        sites = callers.get(getattr(f, "name", ""), [])
+        return bool(sites) and all(fresh(attr, g2, site, depth + 1, seen + (id(f),)) for g2, site in sites)
+
+    n_cells = 0
+    for attr in sorted(acc):
+        kinds = acc[attr]
+        reads = kinds.get("read", [])
+        if not reads or attr in method_names:
+            continue
+        derived = [(f, node) for f, node, val in kinds.get("rebind", []) if not _const_reset(val)] + [(f, node) for f, node, _v in kinds.get("mutate", [])]
+        if attr == "__dict__":
+            f, node, _ = reads[0]
+            R.violation(r, ORCH, qualname_of(f), norm(stmt_of(node))[:90], "the instance dictionary of the orchestrator is accessed by a computed name on the execute() path: what is read cannot be related to this run", node.lineno)
+            continue
+        n_cells += 1
+        if not derived:
+            R.ok(r, ORCH, "SemantivaOrchestrator", f"self.{attr}: configuration (only constant resets are written on the execute() path)")
+            continue
+        stale = [(f, node) for f, node, _v in reads if not fresh(attr, f, node)]
+        if stale:
+            f, node = stale[0]
+            wf, wnode = derived[0]
+            R.violation(r, ORCH, qualname_of(f), norm(stmt_of(node))[:90], f"`self.{attr}` is read here without having been rebound earlier in the same execute() call, and is filled with a run-derived value by `{norm(stmt_of(wnode))[:60]}` in {qualname_of(wf)}: the orchestrator object outlives a run, so what this run records / returns is taken from an earlier run of the same object (memo / last-value cell never reset)", node.lineno)
+        else:
+            R.ok(r, ORCH, "SemantivaOrchestrator", f"self.{attr}: every read on the execute() path follows a rebinding in the same call")
+    if n_cells == 0:
+        raise AnalysisError("execute(): no instance attribute read on the execute() path was recognised")
+
+
+# ---------------------------------------------------------------------------------------------------------
+# D2: class-level / module-level / default-argument containers shared by every instance and every run
+# ---------------------------------------------------------------------------------------------------------
+MUTABLE_CTORS = {"dict", "list", "set", "defaultdict", "OrderedDict", "Counter", "deque", "bytearray", "collections.defaultdict", "collections.OrderedDict", "collections.Counter", "collections.deque"}
+
+
+def _mutable_value(v: Optional[ast.AST]) -> bool:
+    if isinstance(v, (ast.Dict, ast.List, ast.Set, ast.ListComp, ast.DictComp, ast.SetComp)):
+        return True
+    return isinstance(v, ast.Call) and (dotted_name(v.func) or "") in MUTABLE_CTORS
+
+
+def _shared_use_ok(x: ast.AST, fn: Optional[ast.AST]) -> Optional[ast.AST]:
+    """None when this occurrence of a shared container only reads it; else the statement through which it is
+    changed or escapes.  A plain local alias (`t = <shared>`) is followed one level: every use of the alias must
+    itself be a read-only use."""
+    if _read_only_use(x):  # type: ignore[arg-type]
+        return None
+    p = getattr(x, "_parent", None)
+    if fn is not None and isinstance(p, (ast.Assign, ast.AnnAssign)) and p.value is x:
+        tgts = p.targets if isinstance(p, ast.Assign) else [p.target]
+        if len(tgts) == 1 and isinstance(tgts[0], ast.Name):
+            alias = tgts[0].id
+            for n in ast.walk(fn):
+                if isinstance(n, ast.Name) and n.id == alias and isinstance(n.ctx, ast.Load) and not _read_only_use(n):
+                    return stmt_of(n)
+                if isinstance(n, (ast.Global, ast.Nonlocal)) and alias in n.names:
+                    return n
+            return None
+    return stmt_of(x)
+
+
+def _enclosing_function(n: ast.AST) -> Optional[ast.AST]:
+    return next((a for a in ancestors(n) if isinstance(a, FuncNode)), None)
+
+
+def _no_shared_mutable_tables(repo: Repo, R: Report) -> None:
+    r = R.rule("C10-D2-no-shared-mutable-tables", "a container created once per process on the trace path (class body of a driver / orchestrator / collector, module level of the trace modules, mutable default argument) is only ever read: it is not changed in place, not stored into instance state and not handed out, neither directly nor through a local alias - detail options and summaries of one driver / run are not shared with another", 4)
+    rels = [ORCH, UTILS, DELTA] + sorted(m for m in repo.modules if m.startswith("semantiva/trace/drivers/"))
+    for rel in rels:
+        if not repo.has_module(rel):
+            continue
+        mod = repo.module(rel)
+        n_cells = 0
+        # class-level containers
+        for cls in [c for c in ast.walk(mod.tree) if isinstance(c, ast.ClassDef)]:
+            for st in cls.body:
+                if not isinstance(st, (ast.Assign, ast.AnnAssign)) or not _mutable_value(getattr(st, "value", None)):
+                    continue
+                tgt = st.targets[0] if isinstance(st, ast.Assign) else st.target
+                if not isinstance(tgt, ast.Name) or tgt.id.startswith("__"):
+                    continue
+                n_cells += 1
+                bad: Optional[ast.AST] = None
+                where = None
+                for x in ast.walk(mod.tree):
+                    if isinstance(x, ast.Attribute) and x.attr == tgt.id and isinstance(x.value, (ast.Name, ast.Call, ast.Attribute)):
+                        fn = _enclosing_function(x)
+                        site = stmt_of(x) if not isinstance(x.ctx, ast.Load) else _shared_use_ok(x, fn)
+                        if site is not None:
+                            bad, where = site, fn
+                            break
+                    if isinstance(x, ast.Name) and x.id == tgt.id and x is not tgt and _enclosing_function(x) is None and any(a is cls for a in ancestors(x)):
+                        site = stmt_of(x) if not isinstance(x.ctx, ast.Load) else _shared_use_ok(x, None)
+                        if site is not None:
+                            bad, where = site, None
+                            break
+                leaves_ok = _immutable_leaves(st.value) if not isinstance(st.value, ast.Call) else not st.value.args and not st.value.keywords
+                if bad is None and not leaves_ok:
+                    # elements are themselves mutable: a read hands out something that can be changed
+                    used = [x for x in ast.walk(mod.tree) if isinstance(x, ast.Attribute) and x.attr == tgt.id and isinstance(x.ctx, ast.Load)]
+                    if used:
+                        bad, where = stmt_of(used[0]), _enclosing_function(used[0])
+                R.check(bad is None, r, rel, cls.name, norm(st)[:80], f"`{cls.name}.{tgt.id}` exists once per process and `{norm(bad)[:70] if bad is not None else ''}`" + (f" in {qualname_of(where)}" if where is not None else "") + " changes it in place or lets it escape (into instance state / to a caller): every instance and every later run sees what an earlier one did - the trace of a run depends on what was created or run before in the process", getattr(bad, "lineno", st.lineno))
+        # module-level containers of the trace modules (the orchestrator module is decided by C10-D2-no-history)
+        if rel != ORCH:
+            for st in mod.tree.body:
+                if not isinstance(st, (ast.Assign, ast.AnnAssign)) or not _mutable_value(getattr(st, "value", None)):
+                    continue
+                tgt = st.targets[0] if isinstance(st, ast.Assign) else st.target
+                if not isinstance(tgt, ast.Name) or tgt.id.startswith("__"):
+                    continue
+                n_cells += 1
+                bad, where = None, None
+                for x in ast.walk(mod.tree):
+                    if isinstance(x, ast.Name) and x.id == tgt.id and x is not tgt:
+                        fn = _enclosing_function(x)
+                        if fn is not None and not any(isinstance(g, ast.Global) and tgt.id in g.names for g in ast.walk(fn)) and tgt.id in {a.arg for a in fn.args.args + fn.args.kwonlyargs + fn.args.posonlyargs} | {y.id for y in ast.walk(fn) if isinstance(y, ast.Name) and isinstance(y.ctx, ast.Store) and y.id == tgt.id}:
+                            continue  # a local of the same name
+                        site = stmt_of(x) if not isinstance(x.ctx, ast.Load) else _shared_use_ok(x, fn)
+                        if site is not None:
+                            bad, where = site, fn
+                            break
+                leaves_ok = _immutable_leaves(st.value) if not isinstance(st.value, ast.Call) else not st.value.args and not st.value.keywords
+                if bad is None and not leaves_ok:
+                    used = [x for x in ast.walk(mod.tree) if isinstance(x, ast.Name) and x.id == tgt.id and isinstance(x.ctx, ast.Load)]
+                    if used:
+                        bad, where = stmt_of(used[0]), _enclosing_function(used[0])
+                R.check(bad is None, r, rel, "<module>", norm(st)[:80], f"module-level `{tgt.id}` exists once per process and `{norm(bad)[:70] if bad is not None else ''}`" + (f" in {qualname_of(where)}" if where is not None else "") + " changes it in place or lets it escape: every driver / run in the process shares it - the trace of a run depends on what was created or run before", getattr(bad, "lineno", st.lineno))
+        # mutable default arguments
+        for qn, f in [(q, n) for q, n in mod.defs.items() if isinstance(n, FuncNode)]:
+            pos = f.args.posonlyargs + f.args.args
+            pairs = list(zip(pos[len(pos) - len(f.args.defaults):], f.args.defaults)) + [(a, d) for a, d in zip(f.args.kwonlyargs, f.args.kw_defaults) if d is not None]
+            for a, d in pairs:
+                if not _mutable_value(d):
+                    continue
+                n_cells += 1
+                bad = None
+                for x in ast.walk(f):
+                    if isinstance(x, ast.Name) and x.id == a.arg and isinstance(x.ctx, ast.Load):
+                        bad = _shared_use_ok(x, f)
+                        if bad is not None:
+                            break
+                R.check(bad is None, r, rel, qn, f"default `{a.arg}={norm(d)[:40]}`", f"the default value of `{a.arg}` is one object for all calls and `{norm(bad)[:70] if bad is not None else ''}` changes it or lets it escape: later calls see what earlier ones left", getattr(bad, "lineno", f.lineno))
+        R.ok(r, rel, "<module>", f"{rel}: {n_cells} shared container(s) (class level / module level / mutable default), each decided above" if n_cells else f"{rel}: no shared container (class level, module level, mutable default argument)")
+
+
+# ---------------------------------------------------------------------------------------------------------
+# D1: the driver-side sinks accept everything the sanitisers let through, and driver callbacks raise nothing
+# ---------------------------------------------------------------------------------------------------------
+def _caught_without_reraise(node: ast.AST, classes: Set[str]) -> bool:
+    """Is *node* inside the body of a try one of whose handlers catches one of *classes* (or everything) and
+    neither re-raises nor itself contains an uncovered strict sink?"""
+    child = node
+    for a in ancestors(node):
+        if isinstance(a, FuncNode + (ast.Lambda,)):
+            return False
+        if isinstance(a, ast.Try) and any(child is s for s in a.body):
+            for h in a.handlers:
+                if h.type is None:
+                    names = {"BaseException"}
+                else:
+                    names = {(dotted_name(e) or "?").split(".")[-1] for e in (h.type.elts if isinstance(h.type, ast.Tuple) else [h.type])}
+                if names & (classes | {"Exception", "BaseException"}):
+                    if not any(isinstance(x, ast.Raise) for st in h.body for x in ast.walk(st)):
+                        return True
+        child = a
+    return False
+
+
+def _strict_options(c: ast.Call) -> List[Tuple[str, str]]:
+    """Encoder options of a json.dumps / json.dump call that reject values the default encoder accepts."""
+    out = []
+    for k in c.keywords:
+        if k.arg == "allow_nan" and not (isinstance(k.value, ast.Constant) and k.value.value is True):
+            out.append(("allow_nan", "ValueError"))
+        elif k.arg == "check_circular" and not (isinstance(k.value, ast.Constant) and k.value.value is True):
+            out.append(("check_circular", "RecursionError"))
+        elif k.arg == "cls" and not (isinstance(k.value, ast.Constant) and k.value.value is None):
+            out.append(("cls", "Exception"))
+        elif k.arg is None:
+            out.append(("**options", "Exception"))
+    return out
+
+
+def _sinks_not_stricter_than_sanitiser(repo: Repo, R: Report, drivers: Set[str]) -> None:
+    r = R.rule("C10-D1-sinks-accept-sanitised-values", "the serialisation sinks of the trace path (driver callbacks, trace utilities, SER construction) use an encoder that accepts every value the sanitisers let through (JSON-safe means: the default json encoder succeeds; non-finite floats are in that domain) or contain the extra failure; driver callbacks invoked from execute() raise no exception of their own - a driver failure would replace what the run returns or raises", 8)
+    # what `JSON-safe` means here: the probe of the sanitiser
+    probe_strict: Set[str] = set()
+    sj = repo.maybe_func(UTILS, "serialize_json_safe")
+    if sj is None:
+        raise AnalysisError("trace/_utils.py: serialize_json_safe vanished")
+    probes = [c for c in calls_in(nfunc(repo, UTILS, "serialize_json_safe")) if (call_name(c) or "") in ("json.dumps", "json.dump", "dumps")]
+    if not probes:
+        raise AnalysisError("serialize_json_safe: the json.dumps probe was not recognised")
+    probe_strict = set.intersection(*[{o for o, _e in _strict_options(c)} for c in probes])
+    rels = [ORCH, UTILS, DELTA] + sorted(m for m in repo.modules if m.startswith("semantiva/trace/drivers/"))
+    for rel in rels:
+        if not repo.has_module(rel):
+            continue
+        mod = repo.module(rel)
+        for qn, f in [(q, n) for q, n in mod.defs.items() if isinstance(n, FuncNode)]:
+            for c in calls_in(f):
+                d = call_name(c) or ""
+                if d not in ("json.dumps", "json.dump", "dumps", "dump") or (d in ("dumps", "dump") and isinstance(c.func, ast.Attribute)):
+                    continue
+                extra = [(o, e) for o, e in _strict_options(c) if o not in probe_strict]
+                open_ = [(o, e) for o, e in extra if not _caught_without_reraise(c, {e})]
+                R.check(not open_, r, rel, qn, norm(c)[:80], (f"`{open_[0][0]}=` makes this sink reject values that the sanitisers accept (serialize_json_safe probes with the default encoder; e.g. a NaN / inf parameter) and the resulting {open_[0][1]} is not contained here: the traced run raises where the untraced run returns" if open_ else ""), c.lineno)
+    # driver callbacks raise nothing of their own
+    n_cb = 0
+    for rel in [m for m in rels if m.startswith("semantiva/trace/drivers/")]:
+        mod = repo.module(rel)
+        for cls in [c for c in mod.tree.body if isinstance(c, ast.ClassDef)]:
+            meths = {st.name: st for st in cls.body if isinstance(st, FuncNode)}
+            roots = [m for m in meths if m in _orch.DRIVER_METHODS or m == "get_options"]
+            if not roots:
+                continue
+            todo, seen = list(roots), set()
+            while todo:
+                m = todo.pop()
+                if m in seen or m not in meths:
+                    continue
+                seen.add(m)
+                for c in ast.walk(meths[m]):
+                    if isinstance(c, ast.Call) and _self_attr(c.func) is not None:
+                        todo.append(c.func.attr)
+            for m in sorted(seen):
+                f = meths[m]
+                n_cb += 1
+                raises = [x for x in ast.walk(f) if isinstance(x, ast.Raise)]
+                open_r = [x for x in raises if not _caught_without_reraise(x, {"Exception"})]
+                R.check(not open_r, r, rel, f"{cls.name}.{m}", f"{cls.name}.{m} raises nothing of its own", (f"`{norm(open_r[0])[:70]}` raises out of a driver callback that execute() invokes inside the node's try: the exception replaces the result / the exception of the run (traced and untraced runs differ)" if open_r else ""), open_r[0].lineno if open_r else f.lineno)
+    if n_cb == 0:
+        raise AnalysisError("no trace driver class with callbacks found under semantiva/trace/drivers/")
